@@ -53,12 +53,12 @@ func (w *c16world) requester(peer string) itemsfetcher.ItemsRequesterFn {
 }
 
 func runC16(c *ev.Ctx) {
-	c.Rule = "scripted real-time scenarios (ArriveTimeout A = 40 ms, slack A/10, forget 50 A) against a started Fetcher with 3 peers and 6 item ids: announcements of the same item by 1-3 peers, suspension switched on/off, items received (NotifyReceived) or losing interest, re-announcements, silences; shape 'stream': an unanswered item re-announced every 0.4 A for 20 A must be retried throughout (no gap above 3 A + 250 ms); shape 'received before fetching': announced while suspended, received before the next tick while the interest filter still lets it through; every 4th scenario is the idle shape: the fetcher sits idle for 2 A, is suspended, gets an announcement and is unsuspended later. The run ends with >= 22 A of silence. " +
+	c.Rule = "scripted real-time scenarios (ArriveTimeout A = 40 ms, slack A/10, forget 50 A) against a started Fetcher with 3 peers and 6 item ids: announcements of the same item by 1-3 peers, suspension switched on/off, items received (NotifyReceived) or losing interest, re-announcements, silences; shape 'big call': 9-11 ids announced in one call (more than two internal batches), several reported received in one call; shape 'forgotten while stored': announced while suspended, uninteresting before the next tick, interest returning 4-6 A later without announcement; shape 'stream': an unanswered item re-announced every 0.4 A for 20 A must be retried throughout (no gap above 3 A + 250 ms); shape 'received before fetching': announced while suspended, received before the next tick while the interest filter still lets it through; every 4th scenario is the idle shape: the fetcher sits idle for 2 A, is suspended, gets an announcement and is unsuspended later. The run ends with >= 22 A of silence. " +
 		"Observed: every ItemsRequesterFn call (peer identity is baked into the closure), every OnlyInterested answer, all API call times. Oracle: request(id,P) only if P announced id before and id was returned as interesting before; no request for id later than 3 A + 250 ms after it was received / lost interest unless re-announced; " +
 		"bounded progress: an item that stays interesting and unreceived is requested no later than max(announcement, end of suspension) + 10 A + 250 ms; refuting observation: not requested at all by the end of the >= 20 A window. Timing verdicts need a healthy scheduling canary (<= 100 ms oversleep), otherwise the attempt is inconclusive and retried. " +
 		"non-trivial = distinct scenarios in which a suspension overlaps an announcement"
 	c.Assumptions = []string{"OnlyInterested answers from the harness' own interest table", "scenarios are shorter than the forget timeout"}
-	n := c.Pick(48, 900)
+	n := c.Pick(64, 960)
 	c.Parallel(n, 12, func(i int) {
 		cls, detail, inc := rtVerdict(3, 100*time.Millisecond, func() (string, map[string]interface{}) { return c16Scenario(c.Rand("scn", i), i) })
 		c.Inconclusive(int64(inc))
@@ -198,6 +198,28 @@ func c16Scenario(r *rand.Rand, caseN int) (string, map[string]interface{}) {
 			announce(peers[k%3], 1)
 		}
 		streamEnd = w.now()
+	} else if caseN%16 == 9 {
+		// one call announces more ids than two internal batches hold (MaxBatch is 4); later one call reports many received
+		var ids []int
+		for k := 0; k < 9+r.Intn(3); k++ {
+			ids = append(ids, 20+k)
+		}
+		announce(peers[r.Intn(3)], ids...)
+		sleepA(1.5 + r.Float64())
+		goneF(true, ids[:5+r.Intn(3)]...)
+	} else if caseN%16 == 1 {
+		// announced while suspended (stored only), uninteresting before the next tick, suspension ends; much later the
+		// interest returns without any new announcement: the fetcher must have forgotten the item
+		sleepA(1.5)
+		setSuspend(true)
+		announce(peers[r.Intn(3)], 1)
+		sleepA(0.1 + 0.3*r.Float64())
+		goneF(false, 1)
+		sleepA(0.3)
+		setSuspend(false)
+		sleepA(4 + 2*r.Float64())
+		regain(1)
+		overlap = true
 	} else if caseN%16 == 13 {
 		// announced while suspended (stored, not yet fetching), received through another channel before the next tick,
 		// while the application's interest filter still lets it through: only the receipt stops the requests
